@@ -297,7 +297,7 @@ def obligations():
     # thorough: a fixed-seed sample of the fully pinned stored-state cells per storage/lifecycle pair (the full product of
     # 3456 cells x 3 pairs at ~1 CPU-minute each is out of reach; the evidence lists the cells that were run)
     for i, (storage, lifecycle) in enumerate((('smart', 'all_at_once'), ('status', 'one_by_one'), ('annotations', 'asap'))):
-        obs += sample(Ob('h_step', {'storage': storage, 'lifecycle': lifecycle}, tiers=('thorough',), timeout=900, path_timeout=200), 60, seed=20 + i,
+        obs += sample(Ob('h_step', {'storage': storage, 'lifecycle': lifecycle}, tiers=('thorough',), timeout=900, path_timeout=200), 40, seed=20 + i,
                       ka=K, kb=K, base=[0, 1, 2], listed=[False, True], da=[0, 1, 2], db=[0, 1, 2], ob=[0, 1, 2, 3])
     # quick: a sample of the stored-state cells (the rest is in the thorough tier)
     # (ka, kb, base, listed, da, db, ob): retries and the outcome of the first handler stay symbolic
@@ -322,13 +322,13 @@ def obligations():
         obs.append(Ob('h_loop', {'storage': 'smart', 'lifecycle': 'all_at_once', 'handlers': 'subhandlers', 'n': 1, 'pin': {'o0': o0, 'o1': o1, 's0': 0}},
                       tiers=('quick',), timeout=600, path_timeout=300))
     S, O = [0, 1, 2, 3, 4], [0, 1, 2, 3]
-    obs += split(Ob('h_loop', {'storage': 'smart', 'lifecycle': 'all_at_once', 'handlers': 'one_create', 'n': 2},
-                    tiers=('thorough',), timeout=1200, path_timeout=300), s0=S, s1=S, o0=O)
+    obs += sample(Ob('h_loop', {'storage': 'smart', 'lifecycle': 'all_at_once', 'handlers': 'one_create', 'n': 2},
+                     tiers=('thorough',), timeout=900, path_timeout=300), 48, seed=29, s0=S, s1=S, o0=O)
     for i, (storage, lifecycle) in enumerate((('status', 'one_by_one'), ('annotations', 'asap'), ('smart', 'one_by_one'))):
         obs += sample(Ob('h_loop', {'storage': storage, 'lifecycle': lifecycle, 'handlers': 'two_create', 'n': 2},
-                         tiers=('thorough',), timeout=1500, path_timeout=300), 16, seed=30 + i, s0=S, s1=S, o0=O, o1=O)
-    obs += split(Ob('h_loop', {'storage': 'smart', 'lifecycle': 'all_at_once', 'handlers': 'subhandlers', 'n': 1},
-                    tiers=('thorough',), timeout=1200, path_timeout=300), o0=[0, 1, 2, 3, 4], o1=[0, 2, 4], s0=[0, 2, 3])
+                         tiers=('thorough',), timeout=900, path_timeout=300), 8, seed=30 + i, s0=S, s1=S, o0=O, o1=O)
+    obs += sample(Ob('h_loop', {'storage': 'smart', 'lifecycle': 'all_at_once', 'handlers': 'subhandlers', 'n': 1},
+                     tiers=('thorough',), timeout=900, path_timeout=300), 20, seed=33, o0=[0, 1, 2, 3, 4], o1=[0, 2, 4], s0=[0, 2, 3])
     obs += sample(Ob('h_loop', {'storage': 'status', 'lifecycle': 'one_by_one', 'handlers': 'subhandlers', 'n': 2},
-                     tiers=('thorough',), timeout=1500, path_timeout=300), 20, seed=34, s0=S, s1=S, o0=[0, 1, 2, 3, 4], o1=[0, 2, 4])
+                     tiers=('thorough',), timeout=900, path_timeout=300), 10, seed=34, s0=S, s1=S, o0=[0, 1, 2, 3, 4], o1=[0, 2, 4])
     return obs
